@@ -17,7 +17,7 @@ RULE = ("random labelled graphs (1-9 nodes, all id schemes: contiguous/offset/sp
         "with random partial atom maps (existing numbers from a small range so that collisions with the "
         "counter are frequent; occasionally duplicated or non-positive), operation in {complete_aam(None|int|'min'), "
         "initialize_aam(offset), ITS(graph)}; non-trivial = at least one unmapped and one mapped node for completion, "
-        "or an initialize_aam call on a graph with >= 2 nodes; distinct = distinct (operation, offset, node/aam list). A quarter of the completion cases are HISTORIES on one graph object: complete, edit in place (free a number, remove / add a node, remap), complete again with the same or another offset - every completion is compared with the model on the object's contents at that moment; a quarter of the initialize_aam cases have exactly one pre-mapped atom (the one with id 0 if present).")
+        "or an initialize_aam call on a graph with >= 2 nodes; distinct = distinct (operation, offset, node/aam list). About a third of the graphs carry explicit hydrogens (as prune_its_to_rc inserts them), wildcard atoms or atoms without a symbol, mostly on the unmapped nodes. A quarter of the completion cases are HISTORIES on one graph object: complete, edit in place (free a number, remove / add a node, remap), complete again with the same or another offset - every completion is compared with the model on the object's contents at that moment; a quarter of the initialize_aam cases have exactly one pre-mapped atom (the one with id 0 if present).")
 TRUSTED = ["model of the attribute dict as a record of the five keys FGUtils uses"]
 ASSUMPTIONS = ["node ids and map numbers are Python ints; offset is None, an int or 'min' (other values raise ValueError before any work)"]
 
@@ -64,6 +64,16 @@ def generate(seed, tier, ncases=None):
         elif op == "init":
             off = rng.choice([1, 1, 0, rng.randint(-5, 30)])
         c = {"op": op, "graph": g, "offset": off, "scheme": scheme}
+        srng = lib.rng_for(seed, ID, "sym%d" % i)      # a stream of its own: the choices above stay what they were
+        if srng.random() < 0.35:
+            # explicit hydrogens (as prune_its_to_rc inserts them), wildcards, atoms without a symbol: the map is
+            # completed on EVERY node, whatever it stands for
+            for nd in g.nodes:
+                r0 = srng.random()
+                if r0 < (0.5 if "aam" not in g.nodes[nd] else 0.15):
+                    g.nodes[nd]["symbol"] = srng.choice(["H", "H", "H", "R", "*"])
+                elif r0 > 0.95:
+                    g.nodes[nd].pop("symbol", None)
         if op != "init" and rng.random() < 0.3:
             # graphs as get_its / prune_its_to_rc leave them: mapped atoms carry idx_map, later additions do not
             for nd in g.nodes:
